@@ -200,6 +200,20 @@ def find_real_instance(run, v):
                     detail.update({'stream': stream.decode('latin1'), 'n': cv['n'], 'chunks': cv.get('chunks'), 'fault': cv.get('fault'),
                                    'answers': '123' if script else '7', 'observation': a})
                     return True, detail
+    if v['rule'] in ('RETURNED_OK', 'ERROR_CHANGED', 'CALL_AFTER_ERROR'):
+        # the newline pattern of the abstract stream may not be realisable with this buffer (e.g. no query fits in N=2):
+        # sweep the fault position over real streams with answered queries instead -- the same rule, a concrete instance
+        for stream in (b'A:Q?\n', b'U? 5\nA:Q?\n', b'X\nA:Q?\nA:Q?\n'):
+            for n in (8, 16):
+                for k in range(0, 14):
+                    base = {'entry': 'process', 'device': 'T1', 'input': stream.hex(), 'n': n, 'script': None}
+                    detail['tried'] += 1
+                    cv2 = {'fault': k, 'chunks': []}
+                    ok_all, a = _instance_shows(run, v, cv2, base)
+                    if ok_all:
+                        detail.update({'stream': stream.decode('latin1'), 'n': n, 'chunks': [], 'fault': k, 'answers': '7', 'observation': a,
+                                       'note': 'instance found by sweeping the fault position over real streams (the abstract pattern itself is not realisable on T1)'})
+                        return True, detail
     return None, detail
 
 
